@@ -123,14 +123,14 @@ theorem InBox.length {L P : List ℚ} (h : InBox L P) : P.length = L.length :=
 
 theorem sliceCoord_eq (L p v dt : ℚ) (hL : 0 < L) :
     sliceCoord Ops.rat L p v dt = p + v * dt - L * ⌊(p + v * dt) / L⌋ := by
-  unfold sliceCoord; exact pymod_rat_pos _ _ hL
+  unfold sliceCoord; exact pywrap_rat_pos _ _ hL
 
 theorem sliceCoord_cong (L p v dt : ℚ) (hL : 0 < L) : Cong L (p + v * dt) (sliceCoord Ops.rat L p v dt) :=
   ⟨-⌊(p + v * dt) / L⌋, by rw [sliceCoord_eq L p v dt hL]; push_cast; ring⟩
 
 theorem sliceCoord_inBox (L p v dt : ℚ) (hL : 0 < L) :
     0 ≤ sliceCoord Ops.rat L p v dt ∧ sliceCoord Ops.rat L p v dt < L :=
-  ⟨pymod_rat_nonneg _ _ hL, pymod_rat_lt _ _ hL⟩
+  ⟨pywrap_rat_nonneg _ _ hL, pywrap_rat_lt _ _ hL⟩
 
 /-! ### all coordinates -/
 
